@@ -147,6 +147,12 @@ func (r *Run) Inconclusive(s string) {
 
 // Phase runs f, recording its wall time and the evaluations it added.
 func (r *Run) Phase(name string, f func()) {
+	if Flooded() {
+		r.mu.Lock()
+		r.phases = append(r.phases, map[string]any{"phase": name, "skipped": fmt.Sprintf("more than %d failing cases recorded already", floodLimit)})
+		r.mu.Unlock()
+		return
+	}
 	t0 := time.Now()
 	e0 := atomic.LoadInt64(&r.evals)
 	f()
@@ -225,6 +231,7 @@ func (w *W) Fail(c any, class, detail string) {
 		w.fails[class] = f
 	}
 	f.count++
+	atomic.AddInt64(&failTotal, 1)
 	if f.count <= 64 || f.caseJSON == nil {
 		b, err := json.Marshal(c)
 		if err != nil {
@@ -265,8 +272,24 @@ func (w *W) Guard(c any, f func()) {
 
 // PanicDetail formats a recovered panic value with a trimmed stack.
 func PanicDetail(p any) string {
+	if atomic.AddInt64(&panicDetails, 1) > 2000 {
+		// a change that makes nearly every case panic: the first 2000 stacks are enough, capturing millions only costs time
+		return fmt.Sprintf("panic: %v (stack omitted: more than 2000 panics in this run)", p)
+	}
 	return fmt.Sprintf("panic: %v\n%s", p, trimStack(debug.Stack()))
 }
+
+var panicDetails int64
+
+// floodLimit: once this many failing cases have been recorded the run stops starting new work (remaining chunks and phases are
+// skipped and the evidence says so). The verdict is a violation either way; the limit only bounds the time a grossly broken
+// tree takes, so that it is reported as a violation and not as a timeout.
+const floodLimit = 3000000
+
+var failTotal int64
+
+// Flooded reports whether the run has recorded so many failing cases that it stops starting new work.
+func Flooded() bool { return atomic.LoadInt64(&failTotal) > floodLimit }
 
 // Try runs f and reports a panic as text ("" if none).
 func Try(f func()) (panicText string) {
@@ -359,7 +382,7 @@ func (r *Run) Parallel(n int64, chunk int64, body func(w *W, lo, hi int64)) {
 			defer w.Done()
 			for {
 				lo := atomic.AddInt64(&next, chunk) - chunk
-				if lo >= n {
+				if lo >= n || Flooded() {
 					return
 				}
 				hi := lo + chunk
